@@ -9,6 +9,7 @@ mod fam_aut;
 mod fam_cs;
 mod fam_lit;
 mod fam_lr;
+mod fam_min;
 mod fam_re;
 mod fam_store;
 mod rng;
@@ -44,6 +45,7 @@ fn main() {
         "aut" => fam_aut::run(&mut t, &mut rng, thorough),
         "lr" => fam_lr::run(&mut t, &mut rng, thorough),
         "cp" => fam_cp::run(&mut t, &mut rng, thorough),
+        "min" => fam_min::run(&mut t, &mut rng, thorough),
         "re" => fam_re::run(&mut t, &mut rng, thorough),
         _ => {
             eprintln!("unknown family {}", family);
